@@ -28,9 +28,8 @@ _cache = {}
 def lookup(n, pi, ti, tier):
     key = (n, tier)
     if key not in _cache:
-        _cache[key] = (list(W.programs(n, tier)), list(W.try_layouts(n, tier)))
-    progs, tries = _cache[key]
-    return W.Prog(progs[pi], tries[ti])
+        _cache[key] = list(W.try_layouts(n, tier))
+    return W.Prog(W.program_at(n, tier, pi), _cache[key][ti])
 
 
 def build(U, tier_hint="quick"):
